@@ -2,6 +2,7 @@
 // Oracle: exact rational comparison in __float128 (every quantity involved fits in 113 bits).
 #include <quadmath.h>
 
+#include <pthread.h>
 #include "lib.h"
 
 typedef __float128 q_t;
@@ -463,6 +464,101 @@ static void case_simple_sequence(unsigned seq) {
   case_end(1);
 }
 
+// the *_simple conversions from several threads at once, same dimension, a different (divisor, bound / overhead) per
+// thread, after the documented one call per dimension: each thread's results must equal what a table built for its
+// own parameters returns (expected values computed beforehand, sequentially, by table-based calls)
+typedef struct {
+  uint64_t m;
+  double d;
+  unsigned bound, ovh;
+  const double* x;
+  const int64_t* want64;
+  const int32_t* want32;
+  int iters;
+  uint64_t wrong64, wrong32;
+  pthread_barrier_t* bar;
+} csimple_t;
+static void* csimple_worker(void* arg) {
+  csimple_t* c = arg;
+  const uint64_t n = 2 * c->m;
+  int64_t* o64 = malloc(n * 8);
+  int32_t* o32 = malloc(n * 4);
+  pthread_barrier_wait(c->bar);
+  for (int it = 0; it < c->iters; it++) {
+    reim_to_znx64_simple((uint32_t)c->m, c->d, c->bound, o64, c->x);
+    if (memcmp(o64, c->want64, n * 8)) c->wrong64++;
+    cplx_to_tnx32_simple((uint32_t)c->m, c->d, c->ovh, o32, c->x);
+    if (memcmp(o32, c->want32, n * 4)) c->wrong32++;
+  }
+  free(o64);
+  free(o32);
+  return 0;
+}
+static void case_simple_concurrent(uint64_t m, int T, unsigned rep) {
+  char key[96];
+  snprintf(key, sizeof key, "reim_to_znx64_simple+cplx_to_tnx32_simple|%d threads,own parameters", T);
+  if (!case_begin(key, "m=%" PRIu64 " rep=%u", m, rep)) return;
+  rng_t* r = crng();
+  const uint64_t n = 2 * m;
+  // documented warm-up: one call per dimension has completed
+  {
+    double* x = calloc(n, 8);
+    int64_t* o = malloc(n * 8);
+    int32_t* o2 = malloc(n * 4);
+    reim_to_znx64_simple((uint32_t)m, 1.0, 50, o, x);
+    cplx_to_tnx32_simple((uint32_t)m, 1.0, 18, o2, x);
+    free(x); free(o); free(o2);
+  }
+  csimple_t c[16];
+  pthread_t tid[16];
+  pthread_barrier_t bar;
+  pthread_barrier_init(&bar, 0, (unsigned)T);
+  for (int t = 0; t < T; t++) {
+    csimple_t* s = &c[t];
+    memset(s, 0, sizeof *s);
+    s->m = m;
+    s->d = ldexp(1.0, t % 8);   // a different divisor per thread
+    s->bound = (t & 1) ? 63 : 50;
+    s->ovh = (t & 2) ? 30 : 18;
+    s->iters = m <= 64 ? 20000 : (m <= 1024 ? 2000 : 200);
+    s->bar = &bar;
+    double* x = malloc(n * 8);
+    double* ratio = malloc(n * 8);
+    gen_ratios(r, n, 17, ratio, (unsigned)t);
+    for (uint64_t i = 0; i < n; i++) {
+      // keep away from exact ties: the expected values come from another (table-based) call of the same kernels
+      if (ratio[i] * 2 == rint(ratio[i] * 2)) ratio[i] += 0.125;
+      x[i] = ratio[i] * s->d;
+    }
+    free(ratio);
+    int64_t* w64 = malloc(n * 8);
+    int32_t* w32 = malloc(n * 4);
+    REIM_TO_ZNX64_PRECOMP* t64 = new_reim_to_znx64_precomp((uint32_t)m, s->d, s->bound);
+    CPLX_TO_TNX32_PRECOMP* t32 = new_cplx_to_tnx32_precomp((uint32_t)m, s->d, s->ovh);
+    reim_to_znx64(t64, w64, x);
+    cplx_to_tnx32(t32, w32, x);
+    free(t64);
+    free(t32);
+    s->x = x;
+    s->want64 = w64;
+    s->want32 = w32;
+  }
+  for (int t = 0; t < T; t++) pthread_create(&tid[t], 0, csimple_worker, &c[t]);
+  uint64_t calls = 0;
+  for (int t = 0; t < T; t++) {
+    pthread_join(tid[t], 0);
+    if (c[t].wrong64) viol("differential", "reim_to_znx64_simple(m=%" PRIu64 ", d=%g, bound=%u): %" PRIu64 " of %d results of thread %d differ from the table built for these parameters while %d threads use other parameters", m, c[t].d, c[t].bound, c[t].wrong64, c[t].iters, t, T);
+    if (c[t].wrong32) viol("differential", "cplx_to_tnx32_simple(m=%" PRIu64 ", d=%g, overhead=%u): %" PRIu64 " of %d results of thread %d differ from the table built for these parameters while %d threads use other parameters", m, c[t].d, c[t].ovh, c[t].wrong32, c[t].iters, t, T);
+    calls += 2 * (uint64_t)c[t].iters;
+    free((void*)c[t].x); free((void*)c[t].want64); free((void*)c[t].want32);
+  }
+  pthread_barrier_destroy(&bar);
+  cnt("concurrent_simple_conversion_calls", calls);
+  cnt("values_checked", calls * n);
+  sample("%d threads, each with its own (divisor, bound, overhead), %" PRIu64 " calls identical to their table-based results", T, calls);
+  case_end(1);
+}
+
 void run_C14(void) {
   const int th = G.thorough;
   static const uint64_t MQ[] = {1, 2, 4, 8, 16, 32, 64, 256, 1024, 4096, 65536};
@@ -509,6 +605,11 @@ void run_C14(void) {
     }
   }
   for (unsigned q = 0; q < (th ? 4000u : 200u); q++) case_simple_sequence(q);
+  {
+    static const uint64_t CM[] = {8, 2, 64, 1024, 16384};
+    for (size_t i = 0; i < ARRAY_LEN(CM); i++)
+      for (unsigned rep = 0; rep < (th ? 8u : 1u); rep++) case_simple_concurrent(CM[i], CM[i] <= 64 ? 8 : 4, rep);
+  }
   // dense near-tie sweeps: every binade of each variant's domain
   for (int v = 0; v < 5; v++)
     for (int e = -2; e <= (v == 3 ? 48 : 50); e++)
@@ -529,9 +630,12 @@ void run_C14(void) {
       case_to_tnx(m, 0, 48, 0, rep);
       case_cplx_to_tnx32(m, 0, 18, 0, rep);
     }
+  // every m on every conversion; rep 30: both buffers misaligned, 7: output on a 64-byte boundary, 8: input on one
+  static const unsigned AREP[] = {30, 7, 8};
+  for (size_t ar = 0; ar < ARRAY_LEN(AREP); ar++)
   for (uint64_t m = 1; m <= 65536; m <<= 1)
     for (int v = 0; v < 4; v++) {
-      const unsigned rep = 30;
+      const unsigned rep = AREP[ar];
       if (v == 3 && m < 2) continue;
       case_from_znx64(m, v, rep);
       for (int t = 0; t <= 1; t++)
